@@ -454,10 +454,13 @@ func BackSlice(v ssa.Value, opts SliceOpts) map[ssa.Value]bool {
 			visit(v.X)
 		case *ssa.IndexAddr:
 			visit(v.X)
+			visit(v.Index)
 		case *ssa.Index:
 			visit(v.X)
+			visit(v.Index)
 		case *ssa.Lookup:
 			visit(v.X)
+			visit(v.Index)
 		case *ssa.Slice:
 			visit(v.X)
 		case *ssa.Next:
@@ -932,6 +935,13 @@ func UnionEdges(sets ...map[Edge]bool) map[Edge]bool {
 // matching pred.
 func Derives(v ssa.Value, pred func(ssa.Value) bool) bool {
 	return SliceHas(v, SliceOpts{ThroughCalls: true}, pred)
+}
+
+// AddrFrom reports whether the address expression v is built from a value
+// matching pred (field selections, indexing and pointer loads are followed,
+// but not the contents of memory cells).
+func AddrFrom(v ssa.Value, pred func(ssa.Value) bool) bool {
+	return SliceHas(v, SliceOpts{NoMemory: true}, pred)
 }
 
 // DerivesLocal is Derives without looking through call arguments.
